@@ -64,6 +64,11 @@ CHECKS = {
          "The C04 corpus and mutator drive PytatoKeyBuilder: for each graph the key is computed here, for a rebuilt copy, after pickling, and in 3-8 child interpreters with different hash seeds (built there and unpickled there); every (node kind, field) mutant substituted into the root graph must change the key; data-wrapper variants check contents, dtype and shape sensitivity and insensitivity to memory layout.",
          "Creation-traceback tagging off (default). Injectivity is observed on one-component differences only.",
          "DESIGN.md §3 C18"),
+ "C13": ("exploration",
+         "mapper event trace + reflective oracle: every map_* method of every Mapper class is wrapped in place at harness start and logs (mapper, node, extra-args) events; per application the event log is checked for exactly-once per distinct node, the visited set is compared with a dataclass-reflection walk that shares no code with the mappers, and results are checked for identity, node-count and sharing preservation; duplicate twins test collision reporting",
+         "About 25 public mapper-based functions/classes are applied to every graph of a node-kind-complete, hash-consed corpus (diamonds, ladders up to depth 60 with exponential path count, one node used through operand/shape/index/CSR/send/binding edges, traced calls, distributed nodes, symbolic shapes). Monitors: (1) each cached mapper's per-node method fires once per (mapper instance, node[, extra args]); a logical event budget turns exponential re-traversal into a violation instead of a hang; (2) every node the reflective walk finds is visited; (3) identity transforms return their argument, no transform returns more distinct nodes or structurally equal distinct nodes; (4) a graph with one cloned twin must raise the cache-collision error in CopyMapper and deduplicate must merge it.",
+         "Documented conventions are encoded, not judged: no mapper descends into NormalizedSlice bounds, dead-code elimination does not enter zeros_like operands, function bodies are entered by clone_for_callee mappers only, context mappers (einsum no-broadcast rewriter) legitimately revisit per context. Mappers not in the application table are not observed.",
+         "DESIGN.md §3 C13"),
 }
 
 NOT_YET = {
